@@ -7,6 +7,11 @@ props = [json.loads(l) for l in open(os.path.join(V, "properties.jsonl"))]
 
 # property id -> (category, technique, level text, level note) ; absent = not claimed (reason in NOT_APPLICABLE)
 CLAIMS = {
+ "C18": ("exploration",
+         "runtime monitoring: exhaustive comparison of the REPL's submission test (hook H2) with token-level depth from the independent tokenizer; transcript monitor on the real binary over a pipe under random line splittings vs form-by-form evaluation through the library interface",
+         "(i) every string up to length 5 (6 thorough) over a bracket/quote/comment alphabet is given to the REPL's own submission test and to an independent tokenizer; (ii) random sessions (core and derived-form programs, failing forms, displays, literals containing brackets) are fed to the built binary over a pipe under 4 line splittings with comments; stdout and stderr must agree across splittings and equal the values, display output and error messages of the same forms evaluated one after another through Interpreter::eval.",
+         "lexically invalid text and unimplemented comment syntax may be judged either way by the submission test; a quote and its datum are kept on one line (the REPL's rule speaks about lists)"),
+
  "C15": ("exploration",
          "runtime monitoring: location oracle from an independent tokenizer's form and token extents over fault programs (8 faults x 7 contexts) under random layouts, plus syntax errors with a known offending token",
          "fault programs are rendered with random multi-line layout, indentation, comments and 0-30 preceding forms and evaluated as one text by the real interpreter; the independent tokenizer gives the extent of every top-level form and of the uniquely named offending token; the reported location must be present and lie in the failing form, at the offending identifier/operator for unbound reads and non-procedure operators written in the failing form; syntax errors with a location must point at or before the offending token.",
